@@ -186,19 +186,19 @@ func (k *KeyPair) Marshal(w io.Writer) error {
 //
 // Any errors or invalid byte lengths read will return an error.
 func (k *KeyPair) Unmarshal(r io.Reader) error {
-	switch n, err := r.Read(k.Public[:]); {
+	switch n, err := io.ReadFull(r, k.Public[:]); {
 	case err != nil:
 		return err
 	case n != publicKeySize:
 		return io.ErrUnexpectedEOF
 	}
-	switch n, err := r.Read(k.Private[:]); {
+	switch n, err := io.ReadFull(r, k.Private[:]); {
 	case err != nil:
 		return err
 	case n != privateKeySize:
 		return io.ErrUnexpectedEOF
 	}
-	switch n, err := r.Read(k.share[:]); {
+	switch n, err := io.ReadFull(r, k.share[:]); {
 	case err != nil:
 		return err
 	case n != sharedKeySize:
